@@ -90,8 +90,21 @@ def indFor (cfg : LibCfg) (lf : Family) (r : Src) : IndR :=
   | .text, _ => if cfg.staticDeqDiverges then .diverge else .none
   | _, _ => .none
 
+/-- Integer ↔ float comparison of the repaired inspector: as floats, within the tolerance, in both orders. -/
+def crossNumericEq (l r : Src) : Option Bool :=
+  let asFx (s : Src) : Option Int := match s.v with
+    | .int i => some (fxOfInt i) | .uint n => some (fxOfInt n) | .float f => some f | _ => none
+  let isInt (s : Src) := s.kind.family == .signed || s.kind.family == .unsigned
+  if (isInt l && r.kind.family == .float) || (l.kind.family == .float && isInt r) then
+    match asFx l, asFx r with
+    | some a, some b => some (decide ((a - b).natAbs ≤ 1048))
+    | _, _ => none
+  else none
+
 def staticDeq (cfg : LibCfg) (l r : Src) : SDeq :=
   if l.kind == .foreign then .f else
+  if !cfg.staticDeqAsymmetric && !l.v.isNilPtr && !r.v.isNilPtr && (crossNumericEq l r).isSome then
+    (if (crossNumericEq l r).getD false then .t else .f) else
   match indFor cfg l.kind.family r with
   | .panic => if cfg.staticNilPtrPanics then .panic else .f
   | .diverge => .diverge
